@@ -28,7 +28,7 @@ func init() { fw.Register(c20{}) }
 func (c20) ID() string    { return "C20" }
 func (c20) Level() string { return "exploration" }
 func (c20) Rule() string {
-	return "unit = (kernel, length, placement/offset, distribution): kernels {dot, squared-euclidean} as selected by the architecture init (AVX2 assembly on this machine) plus the metric functions euclidean/dot/cosine/haversine and hamming/jaccard (bit functions and the binary vector store); every length 1..4096; operands placed so that the last element ends at a PROT_NONE guard page, or start right after one, or start at offset 0..15 floats into a larger array; distributions uniform, zeros, denormals, large magnitudes, mixed signs and one-hot spike vectors at block boundaries. Compared with a float64 reference under the bound 8(n+8)2^-24*sum|terms| + n*2^-126; symmetry checked with the same bound. Every unit is non-trivial (each length is its own block/tail split); distinct by the tuple."
+	return "unit = (kernel, length, placement/offset, distribution): kernels {dot, squared-euclidean} as selected by the architecture init (AVX2 assembly on this machine) plus the metric functions euclidean/dot/cosine/haversine and hamming/jaccard (bit functions and the binary vector store); every length 1..4096; operands placed so that the last element ends at a PROT_NONE guard page, or start right after one, or start at offset 0..15 floats into a larger array; distributions uniform, zeros, denormals (in both operands, and denormal times large), tiny components whose products and squared differences are denormal, large magnitudes, mixed signs and one-hot spike vectors at block boundaries. Compared with a float64 reference under the bound 8(n+8)2^-24*sum|terms| + (4n+8)*2^-149 (gradual underflow; flush-to-zero does not meet it); symmetry checked with the same bound. Every unit is non-trivial (each length is its own block/tail split); distinct by the tuple."
 }
 func (c20) Assumptions() []string {
 	return []string{"the float64 reference is exact enough (53-bit accumulation of <=4096 terms)", "guard pages catch reads past the operands at page granularity exactly at the placed end", "cosine is 1-dot on unit-normalised inputs as documented"}
@@ -94,6 +94,25 @@ var distros = []distro{
 			y[i] = math.Float32frombits(rng.Uint32N(1<<23) | (rng.Uint32N(2) << 31))
 		}
 	}},
+	// a denormal component times a large one is an ordinary number: a kernel that reads denormal
+	// inputs as zero (DAZ) loses these terms entirely
+	{"denormal-times-large", func(rng *rand.Rand, x, y []float32) {
+		for i := range x {
+			x[i] = math.Float32frombits(rng.Uint32N(1<<23) | (rng.Uint32N(2) << 31))
+			y[i] = float32(math.Ldexp(float64(rng.Float32()+1), 40+rng.IntN(10)))
+			if rng.IntN(2) == 0 {
+				x[i], y[i] = y[i], x[i]
+			}
+		}
+	}},
+	// components around 1e-20: every product and every squared difference is a denormal number, which
+	// gradual underflow represents and flush-to-zero (FTZ) does not
+	{"tiny", func(rng *rand.Rand, x, y []float32) {
+		for i := range x {
+			x[i] = (rng.Float32()*2 - 1) * 2e-20
+			y[i] = (rng.Float32()*2 - 1) * 2e-20
+		}
+	}},
 	{"large", func(rng *rand.Rand, x, y []float32) {
 		for i := range x {
 			x[i] = (rng.Float32()*2 - 1) * 1e15
@@ -132,7 +151,9 @@ func refEuc(x, y []float32) (v, s float64) {
 }
 
 func bound(n int, s float64) float64 {
-	return 8*float64(n+8)*math.Ldexp(1, -24)*s + float64(n)*math.Ldexp(1, -126)
+	// relative part: float32 accumulation in any order; absolute part: every operation in the
+	// denormal range rounds to a multiple of 2^-149 (gradual underflow), 2 operations per component
+	return 8*float64(n+8)*math.Ldexp(1, -24)*s + float64(4*n+8)*math.Ldexp(1, -149)
 }
 
 var lastCallNote = &fw.LastCall{}
@@ -521,6 +542,12 @@ func c20PQ(res *fw.CaseResult, rng *rand.Rand) {
 			}
 			vecs := make([][]float32, n)
 			pts := make([]vectorstore.VectorStorePoint, n)
+			// data far from the origin relative to its spread: a distance computed from norms and a dot
+			// product (|a|^2 - 2ab + |b|^2) cancels catastrophically there, the definition does not
+			shift := []float32{0, 3000, -20000}[rng.IntN(3)]
+			if metric == models.DistanceCosine {
+				shift = 0
+			}
 			for i := range vecs {
 				v := make([]float32, cf.dim)
 				var norm float64
@@ -531,6 +558,7 @@ func c20PQ(res *fw.CaseResult, rng *rand.Rand) {
 					if rng.IntN(4) == 0 {
 						v[j] = -v[j]
 					}
+					v[j] += shift
 					norm += float64(v[j]) * float64(v[j])
 				}
 				if metric == models.DistanceCosine {
